@@ -273,6 +273,8 @@ def run(ctx):
     r4_isolation(ctx)
     r5_reply_format(ctx)
     C10.r6_front_ends(ctx)
+    C10.r1_r2_server(ctx)        # ... and the server's refusal is recognisable as one: a failure SYNACK is never empty (an empty one *is* the success answer)
+    C07.r4_plumbing(ctx)         # the destination asked of the server is the address the client named, unchanged (an IPv6 literal is not an authority to be split at its last colon)
     C10.r4_client_wait(ctx)      # 'succeeded' means the server's verdict: create_proxy_stream returns Ok only after the SYNACK wait, for every stream of every session (the peer version is not yet known on a fresh one)
     C07.r3_atyp_tables(ctx)
     C07.r9_decoded_address_is_the_bytes_read(ctx)
